@@ -1,2 +1,393 @@
-From Verif Require Import Model.Chain.
-Example C07_placeholder : 1 = 1. Proof. reflexivity. Qed.
+(* Properties/C07.v — Evaluation is total: diagnostics, never a crash or a hang.
+   Statements only, each closed by [exact]; the proofs live in Proofs/EvalTotal*.v.
+
+   Scope.  The theorems are about the executable model Model/Eval.v (validated against the Go evaluator by
+   Corr/C07.v).  A Gallina function cannot crash, so "total" means here:
+     (A) the fuel of the model is a technical device only — results do not depend on it once it suffices
+         (C07_fuel_monotone) and it always suffices above an explicit bound, reference cycles, dangling
+         references, import cycles, self-imports and all collaborator faults included (C07_fuel_suffices);
+     (B) error recovery — every failure becomes an UNKNOWN value plus at least one diagnostic, and the rest of
+         the environment is still produced (C07_run_keys_present, C07_declared_keys_present, the per-construct
+         theorems below).
+   Go panics, stack exhaustion and the YAML layer on arbitrary bytes are runtime behaviour: they are observed
+   by the fault-enumeration harness, not proved here. *)
+From Verif Require Import Proofs.EvalTotal.
+From Coq Require Import Lia Sorting.Sorted.
+
+(* ================= (A) fuel ================= *)
+
+(* a run that ended with the fuel flag clear is reproduced exactly (value AND final state) with more fuel:
+   all five mutually recursive functions and eval_env *)
+Theorem C07_fuel_monotone : forall (W : world) (f f' : nat), (f <= f')%nat ->
+  (forall E x xsec xbase id s, oof s = false -> oof (snd (eval_expr W f E x xsec xbase id s)) = false ->
+     eval_expr W f' E x xsec xbase id s = eval_expr W f E x xsec xbase id s) /\
+  (forall E x xbase id s, oof s = false -> oof (snd (eval_repr W f E x xbase id s)) = false ->
+     eval_repr W f' E x xbase id s = eval_repr W f E x xbase id s) /\
+  (forall E x a id s, oof s = false -> oof (snd (eval_typed W f E x a id s)) = false ->
+     eval_typed W f' E x a id s = eval_typed W f E x a id s) /\
+  (forall E p s, oof s = false -> oof (snd (eval_access W f E p s)) = false ->
+     eval_access W f' E p s = eval_access W f E p s) /\
+  (forall E rx rsec rbase rid accs s, oof s = false -> oof (snd (walk W f E rx rsec rbase rid accs s)) = false ->
+     walk W f' E rx rsec rbase rid accs s = walk W f E rx rsec rbase rid accs s) /\
+  (forall root name d s, oof s = false -> oof (snd (eval_env W f root name d s)) = false ->
+     eval_env W f' root name d s = eval_env W f root name d s).
+Proof. exact fuel_monotone. Qed.
+
+Theorem C07_run_fuel_irrelevant : forall f f' W n d,
+  ob_oof (run f W n d) = false -> (f <= f')%nat -> run f' W n d = run f W n d.
+Proof. exact run_fuel_irrelevant. Qed.
+
+(* the fuel flag is never reset, the number of diagnostics never decreases *)
+Theorem C07_oof_sticky : forall (W : world) (f : nat),
+  (forall E x xsec xbase id, keeps (eval_expr W f E x xsec xbase id)) /\
+  (forall E x xbase id, keeps (eval_repr W f E x xbase id)) /\
+  (forall E x a id, keeps (eval_typed W f E x a id)) /\
+  (forall E p, keeps (eval_access W f E p)) /\
+  (forall E rx rsec rbase rid accs, keeps (walk W f E rx rsec rbase rid accs)) /\
+  (forall root name d, keeps (eval_env W f root name d)).
+Proof. exact oof_sticky. Qed.
+
+(* ... nor anything else: calls, memo table and import table only grow (the full state preorder) *)
+Theorem C07_state_monotone : forall W f root name d s, st_le s (snd (eval_env W f root name d s)).
+Proof. exact eval_env_mono. Qed.
+
+(* THE TERMINATION ARGUMENT.  [fuel_bound W d] = (number of loadable environments) + max over the root and the
+   loadable definitions of ((2 * longest reference path + 4) * number of expression positions + 1) + 1.
+   With that much fuel the flag stays clear for every world without fn::toJSON / fn::fromJSON (whose
+   non-ASCII cases the model reports through the same flag): reference cycles, dangling references, import
+   cycles, self-imports, missing / unparsable imports, failing providers and decrypters, and every fault
+   plan [w_fault] included. *)
+Theorem C07_fuel_suffices : forall W name d f,
+  world_no_json W d = true -> (fuel_bound W d <= f)%nat ->
+  oof (snd (eval_env W f "" name d st0)) = false.
+Proof. exact fuel_suffices. Qed.
+
+(* expression level: K * (number of positions) + 1 units are enough for any expression of a JSON-free
+   environment, from ANY state (any memo contents, e.g. in the middle of a reference cycle) *)
+Theorem C07_eval_expr_fuel_suffices : forall W f E x xsec xbase id s,
+  no_json (root_of E) = true -> at_id E id x ->
+  (K (max_path (root_of E)) * length (all_paths (root_of E)) + 1 <= f)%nat ->
+  oof s = false -> oof (snd (eval_expr W f E x xsec xbase id s)) = false.
+Proof. exact eval_expr_fuel_suffices. Qed.
+
+(* hence the observation is independent of the fuel from the bound on *)
+Theorem C07_run_stable : forall W name d f,
+  world_no_json W d = true -> (fuel_bound W d <= f)%nat -> run f W name d = run (fuel_bound W d) W name d.
+Proof. exact run_stable. Qed.
+
+(* the boundary of (A).  [ob_oof] of the observation also records a failed [export] of the result (a value
+   nested deeper than big_fuel = 4096 levels): above the bound that is the only way it can be set ... *)
+Theorem C07_run_oof_only_export : forall W name d f,
+  world_no_json W d = true -> (fuel_bound W d <= f)%nat ->
+  ob_oof (run f W name d) = match ob_value (run f W name d) with None => true | Some _ => false end.
+Proof. exact run_oof_only_export. Qed.
+
+(* ... and the restriction to worlds without fn::toJSON / fn::fromJSON cannot be dropped: the model raises the
+   same flag as an "unsupported" marker for non-ASCII JSON text (witness: x: {fn::fromJSON: "\"\233\""}) *)
+Theorem C07_fuel_suffices_unrestricted_refuted :
+  ~ (forall W name d f, (fuel_bound W d <= f)%nat -> oof (snd (eval_env W f "" name d st0)) = false).
+Proof. exact fuel_suffices_unrestricted_refuted. Qed.
+
+(* ================= (B) error recovery ================= *)
+
+(* the observation of a run that did not exhaust its fuel is an object containing every declared, non-reserved
+   root key — whatever failed on the way.  This is exactly the check [keys_present] of Corr/C07.v. *)
+Theorem C07_run_keys_present : forall f W name d,
+  ob_oof (run f W name d) = false ->
+  exists m, ob_value (run f W name d) = Some (XObj false false m) /\
+            forall k, In k (map fst (ed_values d)) -> reserved k = false -> In k (map fst m).
+Proof. exact run_keys_present. Qed.
+
+(* the same for eval_env from any state in which no expression of [name] has been entered: the top layer of
+   the returned chain is an object whose key list is exactly [env_keys d] *)
+Theorem C07_declared_keys_present : forall W fuel root name d s,
+  untouched name s ->
+  oof (snd (eval_env W fuel root name d s)) = false ->
+  exists props rest,
+    fst (eval_env W fuel root name d s) = obj_layer props :: rest /\ map fst props = env_keys d.
+Proof. exact declared_keys_present. Qed.
+
+(* ... where [env_keys d] is: sorted, duplicate-free, the non-reserved keys of [ed_values d] *)
+Theorem C07_env_keys_spec : forall d,
+  StronglySorted slt (env_keys d) /\ NoDup (env_keys d) /\
+  (forall k, In k (env_keys d) <-> In k (map fst (ed_values d)) /\ reserved k = false).
+Proof. exact env_keys_spec. Qed.
+
+(* every object literal evaluates to an object with exactly its declared keys (first occurrences, sorted),
+   every array literal to an array of the same length: a failed member is a member (unknown), never missing.
+   No hypothesis on the state, the collaborators or the fuel left for the members. *)
+Theorem C07_object_keys : forall W f E entries xbase id s,
+  exists props,
+    fst (eval_repr W (S f) E (EObj entries) xbase id s) = [obj_layer props] /\
+    map fst props = declared_keys_of entries.
+Proof. exact eval_repr_obj_keys. Qed.
+
+Theorem C07_declared_keys_of_spec : forall (entries : list (string * expr)),
+  StronglySorted slt (declared_keys_of entries) /\ NoDup (declared_keys_of entries) /\
+  (forall k, In k (declared_keys_of entries) <-> In k (map fst entries)).
+Proof. exact (@declared_keys_of_spec expr). Qed.
+
+Theorem C07_array_length : forall W f E l xbase id s,
+  exists elems,
+    fst (eval_repr W (S f) E (EArr l) xbase id s)
+      = [LArr false false (ScArray (map top_sch elems) (Some ScNever)) elems] /\
+    length elems = length l.
+Proof. exact eval_repr_arr_length. Qed.
+
+(* ---- failed sub-expressions are UNKNOWN values + at least one diagnostic, construct by construct ----
+   [bump s] is [s] with one more diagnostic; every value below has [l_unk = true]. *)
+Theorem C07_bump : forall s, nerr (bump s) = nerr s + 1 /\ oof (bump s) = oof s /\ log (bump s) = log s.
+Proof. exact (fun s => conj (bump_nerr s) (conj (bump_oof s) (bump_log s))). Qed.
+
+Theorem C07_error_values_unknown :
+  Forall (fun l => l_unk l = true) invalid_access /\ (forall sec c, l_unk (unknown_layer sec c) = true).
+Proof. exact (conj invalid_access_unknown unknown_layer_unknown). Qed.
+
+(* cyclic reference: the expression is being evaluated (memo entry [Some None]) *)
+Theorem C07_cyclic_reference_is_unknown : forall W f E x xsec xbase id s,
+  memo_get id (memo s) = Some None ->
+  eval_expr W (S f) E x xsec xbase id s = ([unknown_layer false ScAlways], bump s).
+Proof. exact cyclic_reference_is_unknown. Qed.
+
+(* dangling reference ${k...}: no such key, nothing inherited *)
+Theorem C07_dangling_reference_is_unknown : forall W f E a k rest s,
+  object_key a = Some k -> reserved k = false ->
+  alookup k (ec_values E) = None -> is_object (ec_base E) = false ->
+  eval_access W (S (S f)) E (a :: rest) s = (invalid_access, bump s).
+Proof. exact dangling_reference_is_unknown. Qed.
+
+(* invalid accesses while walking the syntax of the referenced definition *)
+Theorem C07_walk_bad_index : forall W f E elems rsec rbase rid a rest s,
+  array_index a (Z.of_nat (length elems)) = None ->
+  walk W (S f) E (EArr elems) rsec rbase rid (a :: rest) s = (invalid_access, bump s).
+Proof. exact walk_bad_index. Qed.
+
+Theorem C07_walk_bad_key : forall W f E entries rsec rbase rid a rest s,
+  object_key a = None ->
+  walk W (S f) E (EObj entries) rsec rbase rid (a :: rest) s = (invalid_access, bump s).
+Proof. exact walk_bad_key. Qed.
+
+Theorem C07_walk_dangling : forall W f E entries rsec rbase rid a k rest s,
+  object_key a = Some k -> alookup k entries = None -> is_object rbase = false ->
+  walk W (S f) E (EObj entries) rsec rbase rid (a :: rest) s = (invalid_access, bump s).
+Proof. exact walk_dangling. Qed.
+
+Theorem C07_walk_into_ciphertext : forall W f E repr rsec rbase rid a rest s,
+  walk W (S f) E (ESecretCipher repr) rsec rbase rid (a :: rest) s = (invalid_access, bump s).
+Proof. exact walk_into_ciphertext. Qed.
+
+(* invalid accesses into a VALUE (provider output, import, context, inherited base): whenever the pure access
+   function reports a diagnostic, the result is the unknown [invalid_access] and the count is exactly 1 *)
+Theorem C07_value_access_failure : forall f c accs,
+  snd (value_access f c accs) <> 0 -> value_access f c accs = (invalid_access, 1).
+Proof. exact value_access_failure. Qed.
+
+(* argument validation of the builtins: a rejected argument costs at least one diagnostic — with ONE exception
+   that mirrors the implementation: a CLOSED provider-input record with an extra key is rejected by a `false`
+   subschema that reports nothing itself, and nothing is reported when the inputs contain unknowns
+   ([silent_accept]; the witness shows the exception is real).  The string / string-array validations of
+   fn::join, fn::toBase64, fn::fromBase64, fn::fromJSON always report. *)
+Theorem C07_typed_failure : forall W f E x a id s,
+  let t := eval_typed W (S f) E x a id s in
+  snd (fst t) = false ->
+  silent_accept a = false \/ contains_unknowns (fst (fst t)) = false ->
+  nerr s + 1 <= nerr (snd t).
+Proof. exact eval_typed_failure. Qed.
+
+Theorem C07_validate_fail_diag : forall a v n,
+  validate a v = (false, n) -> silent_accept a = false \/ contains_unknowns v = false -> 1 <= n.
+Proof. exact validate_fail_diag. Qed.
+
+Theorem C07_validate_silent_witness :
+  validate (AccIn (InRecord [] [] true)) [LObj false false ScAlways [("x", [unknown_layer false ScAlways])]] = (false, 0).
+Proof. exact validate_silent_witness. Qed.
+
+(* ... and the builtin then yields an unknown value of its result type *)
+Theorem C07_tob64_bad_argument : forall W f E e xbase id s,
+  let t := eval_typed W (S f) E e AccString (arg_id id 0) s in
+  snd (fst t) = false ->
+  eval_repr W (S (S f)) E (EToB64 e) xbase id s = ([unknown_layer false (ScType "string")], snd t)
+  /\ nerr s + 1 <= nerr (snd t).
+Proof. exact tob64_bad_argument. Qed.
+
+Theorem C07_fromb64_bad_argument : forall W f E e xbase id s,
+  let t := eval_typed W (S f) E e AccString (arg_id id 0) s in
+  snd (fst t) = false ->
+  eval_repr W (S (S f)) E (EFromB64 e) xbase id s = ([unknown_layer false (ScType "string")], snd t)
+  /\ nerr s + 1 <= nerr (snd t).
+Proof. exact fromb64_bad_argument. Qed.
+
+Theorem C07_fromjson_bad_argument : forall W f E e xbase id s,
+  let t := eval_typed W (S f) E e AccString (arg_id id 0) s in
+  snd (fst t) = false ->
+  eval_repr W (S (S f)) E (EFromJSON e) xbase id s = ([unknown_layer false ScAlways], snd t)
+  /\ nerr s + 1 <= nerr (snd t).
+Proof. exact fromjson_bad_argument. Qed.
+
+Theorem C07_join_bad_argument : forall W f E d vs xbase id s,
+  let t1 := eval_typed W (S f) E d AccString (arg_id id 0) s in
+  let t2 := eval_typed W (S f) E vs AccArrString (arg_id id 1) (snd t1) in
+  snd (fst t1) = false \/ snd (fst t2) = false ->
+  eval_repr W (S (S f)) E (EJoin d vs) xbase id s = ([unknown_layer false (ScType "string")], snd t2)
+  /\ nerr s + 1 <= nerr (snd t2).
+Proof. exact join_bad_argument. Qed.
+
+(* well-typed argument, malformed contents *)
+Theorem C07_fromb64_bad_text : forall W f E e xbase id s sec' unk' sc' txt rest,
+  let t := eval_typed W f E e AccString (arg_id id 0) s in
+  let v := LScalar sec' unk' sc' (SStr txt) :: rest in
+  fst t = (v, true) -> contains_unknowns v = false -> b64_decode txt = None ->
+  eval_repr W (S f) E (EFromB64 e) xbase id s
+  = ([LScalar (contains_secrets v) true (ScType "string") SNull], bump (snd t)).
+Proof. exact fromb64_bad_text. Qed.
+
+Theorem C07_fromjson_bad_text : forall W f E e xbase id s sec' unk' sc' txt rest,
+  let t := eval_typed W f E e AccString (arg_id id 0) s in
+  let v := LScalar sec' unk' sc' (SStr txt) :: rest in
+  fst t = (v, true) -> contains_unknowns v = false -> json_parse txt = JPErr ->
+  eval_repr W (S f) E (EFromJSON e) xbase id s
+  = ([LScalar (contains_secrets v) true ScAlways SNull], bump (snd t)).
+Proof. exact fromjson_bad_text. Qed.
+
+(* secrets: invalid envelope; decrypter failing or faulted *)
+Theorem C07_bad_ciphertext_is_unknown : forall W f E repr xbase id s,
+  (forall ct, decode_ct esc_params repr <> DOk ct) ->
+  eval_repr W (S f) E (ESecretCipher repr) xbase id s = ([LScalar true true (ScType "string") SNull], bump s).
+Proof. exact bad_ciphertext_is_unknown. Qed.
+
+Theorem C07_decrypt_failure_is_unknown : forall W f E repr ct xbase id s,
+  decode_ct esc_params repr = DOk ct -> w_check W && negb (w_show W) = false ->
+  (w_fault W = Some (calls s) \/ w_decrypt W (ec_name E) ct = None) ->
+  exists s',
+    eval_repr W (S f) E (ESecretCipher repr) xbase id s = ([LScalar true true (ScType "string") SNull], s') /\
+    nerr s' = nerr s + 1 /\ log s' = EvDecrypt (ec_name E) ct :: log s /\ oof s' = oof s.
+Proof. exact decrypt_failure_is_unknown. Qed.
+
+(* providers: unknown provider / faulted LoadProvider; rejected inputs; Open failing or faulted; inputs that are
+   not an object although the schema let them through *)
+Theorem C07_provider_load_failure : forall W f E pname inputs xbase id s,
+  (w_fault W = Some (calls s) \/ alookup pname (w_provs W) = None) ->
+  fst (eval_repr W (S f) E (EOpen pname inputs) xbase id s) = [unknown_layer false ScAlways] /\
+  nerr s + 1 <= nerr (snd (eval_repr W (S f) E (EOpen pname inputs) xbase id s)).
+Proof. exact provider_load_failure. Qed.
+
+Theorem C07_provider_bad_inputs : forall W f E pname inputs xbase id s p,
+  fst (call W s) = false -> alookup pname (w_provs W) = Some p ->
+  let s1 := snd (emit (EvLoadProvider pname) (snd (call W s))) in
+  let t := eval_typed W f E inputs (AccIn (pv_in p)) (arg_id id 0) s1 in
+  snd (fst t) = false ->
+  eval_repr W (S f) E (EOpen pname inputs) xbase id s = ([unknown_layer false (pv_out p)], snd t).
+Proof. exact provider_bad_inputs. Qed.
+
+Theorem C07_provider_open_failure : forall W f E pname inputs xbase id s p,
+  fst (call W s) = false -> alookup pname (w_provs W) = Some p ->
+  let s1 := snd (emit (EvLoadProvider pname) (snd (call W s))) in
+  let t := eval_typed W f E inputs (AccIn (pv_in p)) (arg_id id 0) s1 in
+  forall iv a b m,
+  fst t = (iv, true) -> contains_unknowns iv = false -> w_check W = false ->
+  export big_fuel iv = Some (XObj a b m) ->
+  (w_fault W = Some (calls (snd t)) \/ pv_beh p = PFail) ->
+  exists s',
+    eval_repr W (S f) E (EOpen pname inputs) xbase id s = ([unknown_layer false (pv_out p)], s') /\
+    nerr s' = nerr (snd t) + 1 /\
+    log s' = EvOpen id pname (XObj a b m) (ec_root E) (ec_name E) :: log (snd t).
+Proof. exact provider_open_failure. Qed.
+
+Theorem C07_provider_nonobject_inputs : forall W f E pname inputs xbase id s p,
+  fst (call W s) = false -> alookup pname (w_provs W) = Some p ->
+  let s1 := snd (emit (EvLoadProvider pname) (snd (call W s))) in
+  let t := eval_typed W f E inputs (AccIn (pv_in p)) (arg_id id 0) s1 in
+  forall iv x,
+  fst t = (iv, true) -> contains_unknowns iv = false -> w_check W = false ->
+  export big_fuel iv = Some x -> (forall a b m, x <> XObj a b m) ->
+  eval_repr W (S f) E (EOpen pname inputs) xbase id s = ([unknown_layer false (pv_out p)], bump (snd t)).
+Proof. exact provider_nonobject_inputs. Qed.
+
+(* imports: a failing / missing / unparsable / faulted load, or an import cycle (self-import included), costs
+   one diagnostic and is skipped; the remaining imports are processed with the same accumulated base *)
+Theorem C07_import_failure_skipped : forall W ev n merge rest base my s,
+  alookup n (imps s) = None ->
+  load_result W (fst (call W s)) n = LoadFail \/ load_result W (fst (call W s)) n = LoadNoParse ->
+  env_go W ev ((n, merge) :: rest) base my s
+  = env_go W ev rest base my (bump (snd (emit (EvLoad n) (snd (call W s))))).
+Proof. exact import_failure_skipped. Qed.
+
+Theorem C07_load_fault_fails : forall W n s, w_fault W = Some (calls s) -> load_result W (fst (call W s)) n = LoadFail.
+Proof. exact load_result_fault. Qed.
+
+Theorem C07_load_missing_fails : forall W n b, alookup n (w_envs W) = None -> load_result W b n = LoadFail.
+Proof. exact load_result_missing. Qed.
+
+Theorem C07_import_cycle_skipped : forall W ev n merge rest base my s i,
+  alookup n (imps s) = Some i -> is_evaluating i = true ->
+  env_go W ev ((n, merge) :: rest) base my s = env_go W ev rest base my (bump s).
+Proof. exact import_cycle_skipped. Qed.
+
+(* ================= Examples: the hypotheses are satisfiable on non-trivial data ================= *)
+Definition ex_world (envs : list (string * env_load)) (fault : option N) : world :=
+  {| w_envs := envs; w_provs := []; w_ctx := []; w_check := false; w_show := false;
+     w_fault := fault; w_decrypt := fun _ _ => None |}.
+
+(* a: ${a}   b: 2     — the self-reference is cut: unknown value, exactly one diagnostic, b unaffected *)
+Definition ex_self : envdef :=
+  {| ed_imports := []; ed_values := [("a", ESym [AName "a"]); ("b", ENum "2")] |}.
+
+Example C07_ex_self_reference :
+  run 40 (ex_world [] None) "e" ex_self
+  = {| ob_value := Some (XObj false false [("a", XScalar false true SNull); ("b", XScalar false false (SNum "2"))]);
+       ob_errors := true; ob_log := []; ob_oof := false |}
+  /\ nerr (snd (eval_env (ex_world [] None) 40 "" "e" ex_self st0)) = 1.
+Proof. vm_compute. split; reflexivity. Qed.
+
+(* the bound of this world is 20; the theorem applies and agrees with the computation *)
+Example C07_ex_self_bound :
+  fuel_bound (ex_world [] None) ex_self = 20%nat /\
+  oof (snd (eval_env (ex_world [] None) 20 "" "e" ex_self st0)) = false /\
+  run 1000 (ex_world [] None) "e" ex_self = run 20 (ex_world [] None) "e" ex_self.
+Proof.
+  split; [vm_compute; reflexivity|]. split.
+  - apply C07_fuel_suffices; [vm_compute; reflexivity|vm_compute; lia].
+  - apply (C07_run_stable (ex_world [] None) "e" ex_self 1000); [vm_compute; reflexivity|vm_compute; lia].
+Qed.
+
+(* a failing import, a missing one, one that imports the root back (cycle) and a self-import: four
+   diagnostics from the imports, a fifth for ${imports.bad}; all three declared keys are present, the
+   successfully imported key z too *)
+Definition ex_envs : list (string * env_load) :=
+  [("bad", LoadFail);
+   ("ok", LoadOk {| ed_imports := [("e", true)]; ed_values := [("z", ENum "9")] |})].
+Definition ex_imp : envdef :=
+  {| ed_imports := [("bad", true); ("nope", true); ("ok", true); ("e", true)];
+     ed_values := [("a", ENum "1"); ("b", ESym [AName "z"]); ("c", ESym [AName "imports"; AName "bad"])] |}.
+
+Example C07_ex_failing_imports :
+  run 40 (ex_world ex_envs None) "e" ex_imp
+  = {| ob_value := Some (XObj false false [("a", XScalar false false (SNum "1"));
+                                           ("b", XScalar false false (SNum "9"));
+                                           ("c", XScalar false true SNull);
+                                           ("z", XScalar false false (SNum "9"))]);
+       ob_errors := true; ob_log := [EvLoad "bad"; EvLoad "nope"; EvLoad "ok"]; ob_oof := false |}
+  /\ nerr (snd (eval_env (ex_world ex_envs None) 40 "" "e" ex_imp st0)) = 5
+  /\ env_keys ex_imp = ["a"; "b"; "c"].
+Proof. vm_compute. repeat split; reflexivity. Qed.
+
+(* the same with the third collaborator call (loading "ok") made to fail: keys still all there *)
+Example C07_ex_fault_injected :
+  exists m, ob_value (run 40 (ex_world ex_envs (Some 2)) "e" ex_imp) = Some (XObj false false m) /\
+            forall k, In k (map fst (ed_values ex_imp)) -> reserved k = false -> In k (map fst m).
+Proof. apply C07_run_keys_present. vm_compute. reflexivity. Qed.
+
+Example C07_ex_fault_value :
+  ob_value (run 40 (ex_world ex_envs (Some 2)) "e" ex_imp)
+  = Some (XObj false false [("a", XScalar false false (SNum "1"));
+                            ("b", XScalar false true SNull);
+                            ("c", XScalar false true SNull)]).
+Proof. vm_compute. reflexivity. Qed.
+
+Example C07_ex_imports_bound :
+  fuel_bound (ex_world ex_envs None) ex_imp = 36%nat /\
+  forall fault f, (36 <= f)%nat -> oof (snd (eval_env (ex_world ex_envs fault) f "" "e" ex_imp st0)) = false.
+Proof.
+  split; [vm_compute; reflexivity|]. intros fault f Hf.
+  apply C07_fuel_suffices; [vm_compute; reflexivity|exact Hf].
+Qed.
